@@ -57,6 +57,7 @@ type pluginObs struct {
 	ConfigSeen bool     `json:"config_seen"`
 	Config     string   `json:"config"`
 	Pid        int      `json:"pid"`
+	Cwd        string   `json:"cwd"`
 	AfterStart int      `json:"after_start"` // 0 gone, 1 zombie, 2 running
 	AfterStop  int      `json:"after_stop"`
 	Reaped     int      `json:"reaped_after_drop"` // dielater / hanglater, not silent: state some time after the event that dropped it
@@ -81,15 +82,21 @@ type launchCase struct {
 	// behaviour of the runtime's SyncFn: "" calls the synchronisation callback and returns nil; "before" returns an
 	// error WITHOUT calling it; "after" calls it and then returns an error.  Start must fail as a whole in the last
 	// two, and every plugin launched by the attempt must be gone from the process table when it returns.
-	SyncFn    string      `json:"sync_fn"`
-	Silent    bool        `json:"silent_stop"`
-	PreEvents bool        `json:"pre_events"` // silent cases: two events are sent before the connections are lost
-	Noticed   bool        `json:"noticed_before_stop"`
-	StartOK   bool        `json:"start_ok"`
-	StartErr  string      `json:"start_err"`
-	Obs       []pluginObs `json:"obs"`
-	Events    []eventObs  `json:"events"`
-	WallMs    int64       `json:"wall_ms"`
+	SyncFn string `json:"sync_fn"`
+	// how the plugin and drop-in directories are handed to the Adaptation: "" absolute; "rel" plugins / dropins relative
+	// to the runtime's working directory (the scratch directory of the case); "rel-slash" with a trailing slash;
+	// "rel-dot" ./plugins; "rel-dotdot" a/../plugins; "abs-slash", "abs-dotdot" the same spellings of absolute paths.
+	// The outcome must not depend on the spelling.
+	PathForm   string      `json:"path_form"`
+	RuntimeCwd string      `json:"runtime_cwd"`
+	Silent     bool        `json:"silent_stop"`
+	PreEvents  bool        `json:"pre_events"` // silent cases: two events are sent before the connections are lost
+	Noticed    bool        `json:"noticed_before_stop"`
+	StartOK    bool        `json:"start_ok"`
+	StartErr   string      `json:"start_err"`
+	Obs        []pluginObs `json:"obs"`
+	Events     []eventObs  `json:"events"`
+	WallMs     int64       `json:"wall_ms"`
 }
 
 var (
@@ -345,7 +352,42 @@ func (e *launchEnv) run(lc *launchCase) error {
 		return err
 	}
 	updateFn := func(context.Context, []*api.ContainerUpdate) ([]*api.ContainerUpdate, error) { return nil, nil }
-	opts := []adaptation.Option{adaptation.WithPluginPath(plug), adaptation.WithPluginConfigPath(drop)}
+	plugArg, dropArg := plug, drop
+	if lc.PathForm != "" {
+		if err := os.MkdirAll(filepath.Join(root, "a"), 0o755); err != nil {
+			return err
+		}
+		switch lc.PathForm {
+		case "rel":
+			plugArg, dropArg = "plugins", "dropins"
+		case "rel-slash":
+			plugArg, dropArg = "plugins/", "dropins/"
+		case "rel-dot":
+			plugArg, dropArg = "./plugins", "./dropins"
+		case "rel-dotdot":
+			plugArg, dropArg = "a/../plugins", "a/../dropins"
+		case "abs-slash":
+			plugArg, dropArg = plug+"/", drop+"/"
+		case "abs-dotdot":
+			plugArg, dropArg = root+"/a/../plugins", root+"/a/../dropins"
+		default:
+			return fmt.Errorf("unknown path form %q", lc.PathForm)
+		}
+		if strings.HasPrefix(lc.PathForm, "rel") {
+			// the runtime's working directory is the scratch directory of the case while the Adaptation lives; the
+			// driver is sequential and writes nothing of its own until run returns
+			old, err := os.Getwd()
+			if err != nil {
+				return err
+			}
+			if err := os.Chdir(root); err != nil {
+				return err
+			}
+			defer os.Chdir(old)
+		}
+	}
+	lc.RuntimeCwd, _ = os.Getwd()
+	opts := []adaptation.Option{adaptation.WithPluginPath(plugArg), adaptation.WithPluginConfigPath(dropArg)}
 	if lc.Listen {
 		opts = append(opts, adaptation.WithSocketPath(filepath.Join(root, "sock", "nri.sock")))
 	} else {
@@ -388,7 +430,7 @@ func (e *launchEnv) run(lc *launchCase) error {
 			continue
 		}
 		l := ls[0]
-		po := pluginObs{File: en.Name, Count: len(ls), Env: probe.SortedEnv(l.Env), Stub: l.Stub, Pid: l.Pid}
+		po := pluginObs{File: en.Name, Count: len(ls), Env: probe.SortedEnv(l.Env), Stub: l.Stub, Pid: l.Pid, Cwd: l.Cwd}
 		for k := range l.Fds {
 			n, _ := strconv.Atoi(k)
 			po.Fds = append(po.Fds, n)
@@ -652,6 +694,9 @@ func oracle(lc *launchCase) []string {
 		}
 		if d.base != "" && po.Stub != d.idx+"-"+d.base {
 			bad = append(bad, fmt.Sprintf("%s: stub identity %q", d.file, po.Stub))
+		}
+		if po.Cwd != lc.RuntimeCwd {
+			bad = append(bad, fmt.Sprintf("%s: started in working directory %q, the runtime's is %q", d.file, po.Cwd, lc.RuntimeCwd))
 		}
 		if fmt.Sprint(po.Fds) != "[0 1 2 3]" || !po.Fd3Socket {
 			bad = append(bad, fmt.Sprintf("%s: descriptors %v %v", d.file, po.Fds, po.FdTargets))
@@ -1131,6 +1176,21 @@ func genDeclared(r *rand.Rand, i int) *launchCase {
 	return lc
 }
 
+// pathforms: the directories of a dropins / order case handed over in every spelling (relative to the runtime's
+// working directory, trailing slash, ./, a/../, and the same for absolute paths)
+var pathForms = []string{"rel", "rel-slash", "rel-dot", "rel-dotdot", "abs-slash", "abs-dotdot"}
+
+func genPathForms(r *rand.Rand, i int) *launchCase {
+	var lc *launchCase
+	if i%2 == 0 {
+		lc = genDropins(r, 1+4*r.Intn(4)) // pairs without an unreadable file for the first plugin
+	} else {
+		lc = genOrder(r, i)
+	}
+	lc.Stream, lc.ID, lc.PathForm = "pathforms", fmt.Sprintf("pathforms/%d", i), pathForms[i%len(pathForms)]
+	return lc
+}
+
 // ---------------------------------------------------------------- corpus
 
 // loadCorpus reads <verif>/corpus/C18/*.json: directory contents replayed before the generated streams.
@@ -1150,12 +1210,13 @@ func loadCorpus() ([]*launchCase, error) {
 			Silent  bool     `json:"silent_stop"`
 			PreEv   bool     `json:"pre_events"`
 			SyncFn  string   `json:"sync_fn"`
+			Form    string   `json:"path_form"`
 		}
 		if err := json.Unmarshal(b, &in); err != nil {
 			return nil, fmt.Errorf("%s: %w", f, err)
 		}
 		lc := &launchCase{Stream: "corpus", ID: in.ID, Outcomes: map[string]string{}, Entries: []entry{}, Dropins: in.Dropins, Obs: []pluginObs{}, Events: []eventObs{},
-			Silent: in.Silent, PreEvents: in.PreEv, SyncFn: in.SyncFn}
+			Silent: in.Silent, PreEvents: in.PreEv, SyncFn: in.SyncFn, PathForm: in.Form}
 		if lc.Dropins == nil {
 			lc.Dropins = []dropin{}
 		}
@@ -1219,6 +1280,7 @@ func driveLaunch(c *hx.Ctx) error {
 		{"startfail", c.Pick(6, 90), genStartFail},
 		{"synctimeout", c.Pick(2, 24), genSyncTimeout},
 		{"declared", c.Pick(4, 80), genDeclared},
+		{"pathforms", c.Pick(6, 60), genPathForms},
 	}
 	corpus, err := loadCorpus()
 	if err != nil {
@@ -1284,6 +1346,10 @@ func driveLaunch(c *hx.Ctx) error {
 						c.Count("c18.sync_timeout.healthy_after_hanging", 1)
 					}
 				}
+			}
+			if lc.PathForm != "" {
+				c.Count("c18.path_form."+lc.PathForm, 1)
+				c.Count("c18.path_form.launched", launched)
 			}
 			for _, po := range lc.Obs {
 				// launched plugins declaring an identity of their own when they register
@@ -1365,11 +1431,14 @@ func driveLaunch(c *hx.Ctx) error {
 		c.Stats.Distribution["c18.declared.other_index"] == 0 {
 		shapeMissed("declared-identity cases missed their target shape: %v", c.Stats.Distribution)
 	}
+	if c.Stats.Distribution["c18.path_form.rel"] == 0 || c.Stats.Distribution["c18.path_form.launched"] == 0 {
+		shapeMissed("path-form cases missed their target shape: %v", c.Stats.Distribution)
+	}
 	if n := c.Stats.Distribution["c18.silent_stop.cases"]; n == 0 || 2*c.Stats.Distribution["c18.silent_stop.noticed_before_stop"] < n {
 		shapeMissed("silent-stop cases missed their target shape (Stop after the runtime has noticed a lost connection, no event in between): %v", c.Stats.Distribution)
 	}
 	c.Stats.Extra = map[string]interface{}{"probe_build_ms": buildMs, "cases": total, "cases_failing_go_oracle": failing, "target_shapes_missed_while_the_oracle_failed": missed,
 		"observed_only": "launch-once, environment, descriptor inheritance (/proc/self/fd of the child), kill and reap (/proc/<pid>/stat) are operating-system behaviour observed on the implementation; they are not proved"}
-	c.Stats.Rule = "generated plugin directories (probe copies with every execute-bit pattern, non-executables, sub-directories, symbolic links, non-binaries, malformed names), drop-in directories (all 16 state pairs of idx-name.conf x name.conf over missing / content / unreadable / present but empty), failure modes chosen by the probe's file name (exits at once, never registers, closes its socket, Configure fails, Synchronize fails, exits later, closes its connection later and keeps running) started by a real Adaptation; after the later deaths either three more events are sent (the dead plugins are dropped, killed and reaped) or - stream stopsilent and two corpus cases - NO event or request: the driver waits until the runtime has closed its end of the lost connections (its own descriptor table) and calls Stop; stream declared and one corpus case: healthy plugins whose RegisterPlugin request declares an identity of their own (an index that would sort elsewhere, an empty name, a malformed index, another name) next to ordinary ones - all must be kept, invoked at their file-name position, running after Start, gone after Stop; stream synctimeout and two corpus cases: with a 3 s request time-out one plugin never answers Synchronize (it is dropped and killed) while healthy plugins before and after it in index order, and twelve plugins that each answer after 300 ms, must all be kept and invoked in order; stream startfail and two corpus cases: the runtime's SyncFn returns an error before or after calling the NRI callback, Start must fail and every process launched by the attempt must be gone when it returns; after Stop every launched pid must be gone from the process table (no live process, no zombie child); a case is non-trivial when at least one process was launched or Start failed on a malformed name / unreadable drop-in"
+	c.Stats.Rule = "generated plugin directories (probe copies with every execute-bit pattern, non-executables, sub-directories, symbolic links, non-binaries, malformed names), drop-in directories (all 16 state pairs of idx-name.conf x name.conf over missing / content / unreadable / present but empty), failure modes chosen by the probe's file name (exits at once, never registers, closes its socket, Configure fails, Synchronize fails, exits later, closes its connection later and keeps running) started by a real Adaptation; after the later deaths either three more events are sent (the dead plugins are dropped, killed and reaped) or - stream stopsilent and two corpus cases - NO event or request: the driver waits until the runtime has closed its end of the lost connections (its own descriptor table) and calls Stop; stream pathforms and one corpus case: the plugin and drop-in directories handed over as relative paths (the runtime's working directory is the case's scratch directory), with a trailing slash, ./ and a/../ spellings, relative and absolute - same expectations as for absolute paths, and every launched process reports the runtime's working directory as its own; stream declared and one corpus case: healthy plugins whose RegisterPlugin request declares an identity of their own (an index that would sort elsewhere, an empty name, a malformed index, another name) next to ordinary ones - all must be kept, invoked at their file-name position, running after Start, gone after Stop; stream synctimeout and two corpus cases: with a 3 s request time-out one plugin never answers Synchronize (it is dropped and killed) while healthy plugins before and after it in index order, and twelve plugins that each answer after 300 ms, must all be kept and invoked in order; stream startfail and two corpus cases: the runtime's SyncFn returns an error before or after calling the NRI callback, Start must fail and every process launched by the attempt must be gone when it returns; after Stop every launched pid must be gone from the process table (no live process, no zombie child); a case is non-trivial when at least one process was launched or Start failed on a malformed name / unreadable drop-in"
 	return nil
 }
